@@ -374,6 +374,9 @@ class Check:
             return True
         return False
 
+    def known_open(self, kid):
+        return kid in self.open
+
     def violation(self, what, case, impl=None, model=None, failing_input=True, broken=None):
         self.violations.append(dict(property=self.prop, what=what, case=case, implementation=impl,
                                     model=model, failing_input_found=failing_input,
